@@ -27,6 +27,8 @@ RULE = ("histories = 1-3 coexisting models (more via new_model) + 4-40 ops out o
         "oracle-only stream (1/5 more histories, not evaluated by the Z-valued model): twelve exotic payload objects (None, float, "
         "str, tuple, bool, 2**70, numpy scalar, 0-d array, frozenset, dict, Decimal, Fraction) through the constructor and "
         "create_agents, constructors raising before / after super().__init__(), callbacks raising in the middle of an activation, "
+        "deepcopy / pickle round trip of a model (directly or through one of its agents / its AgentSet) whose copy must mirror every "
+        "view with its own agent objects, go on as a model of its own and leave the original alone, "
         "n = 30; every view of every model is observed after every op and the oracle is evaluated after every atomic action "
         "(not inside a running remove()/remove_all_agents()); non-trivial = at least 3 ops, one creation and one removal or "
         "activation; distinct = by SHA1 of the history; enumerator (thorough / on a break): all sequences of length <= 3 (4) over 21 ops")
@@ -292,6 +294,26 @@ def gen_cases(rng, tier):
 
 
 N_EXOTIC = 12
+COPY_KINDS = ["pickle0", "pickle2", "pickle5", "pickle_default", "pickle_agent", "pickle_agentset", "deepcopy", "copy_agent"]
+# After copy.deepcopy / a pickle round trip of a model the id counter of the copy starts again at 1 (Agent._ids is keyed by the
+# model OBJECT): a FINDING of this check, see reports/g02.md and fixes/C02-1-*.diff.  The clause is evaluated when the fix is in
+# the tree under test (detected by the attribute the fix introduces) or when VERIF_C02_COPY_IDS=1.
+import os as _os
+
+CHECK_IDS_AFTER_COPY = _os.environ.get("VERIF_C02_COPY_IDS") == "1"
+_UID = [0]
+
+
+def _reg(cls):
+    """make a class defined inside the driver picklable by reference: a unique module-level name in this module"""
+    import sys
+
+    _UID[0] += 1
+    name = f"{cls.__name__}_{_UID[0]}"
+    cls.__name__ = cls.__qualname__ = name
+    cls.__module__ = __name__
+    setattr(sys.modules[__name__], name, cls)
+    return cls
 
 
 def _gen_oracle_only(rng):
@@ -309,6 +331,8 @@ def _gen_oracle_only(rng):
             ops.append(["create_raise", rng.randrange(nm), rng.choice([11, 12])])
         elif r < 0.33:
             ops.append(["create_many", rng.randrange(nm), 0, 30, "scalar", 1, "pos"])
+        elif r < 0.45:
+            ops.append(["clone_model", rng.randrange(nm), rng.choice(COPY_KINDS)])
         if op[0] == "activate" and op[5] and rng.random() < 0.6:
             op = list(op)
             sc = [list(e) for e in op[5]]
@@ -455,6 +479,8 @@ class _Driver:
         self.shared = {}        # equal argument specifications share ONE mutable object across calls and models
         self.abandoned = []
         self.abandon = bool(case.get("abandon_iter"))
+        for cls0 in (A, B, C, D, E, F, G, H, Zf, Mixin, J, RB, RA):
+            _reg(cls0)
         self.classes = [A, B, C, D, mesa.Agent, E, F, G, H, Zf, J, RB, RA]
         # prior history in the same process: a model that came and went, with agents of the same classes
         prior = mesa.Model(seed=3)
@@ -559,6 +585,8 @@ class _Driver:
 
     # hooks called by the overriding remove() methods of E, F, G
     def spawn(self, agent, c, v):
+        if self.kof(agent) < 0:
+            return      # an agent of a copied / unpickled model: not part of the shadow history
         m = self.s_model[self.kof(agent)]
         a = self.classes[c](self.models[m], v)
         self.adopt(a, m, c)
@@ -567,6 +595,8 @@ class _Driver:
         import numpy as np
 
         v = getattr(agent, "val", None)
+        if self.kof(agent) < 0:
+            return None
         if isinstance(v, (int, np.integer)) and not isinstance(v, bool) and 0 <= int(v) < len(self.born):
             return self.born[int(v)]
         return None
@@ -580,6 +610,8 @@ class _Driver:
 
     def note_super_remove(self, agent):
         k = self.kof(agent)
+        if k < 0:
+            return
         self.s_removed[k] = True
         self.s_hidden.discard(k)
 
@@ -743,6 +775,8 @@ class _Driver:
             return {self.s_model[op[1]]} if 0 <= op[1] < len(self.born) else set()
         if k in ("set_discard", "set_select", "create_x", "create_many_x", "create_raise"):
             return {op[1]}
+        if k == "clone_model":
+            return set()
         if k == "activate":
             t = {op[1]}
             for e in op[5]:
@@ -850,6 +884,58 @@ class _Driver:
                     self.adopt(a, m, c)
             self.check("create_agents")
             return [len(ret)], op
+        if kind == "clone_model":
+            import copy
+            import pickle
+
+            _, m, how = op
+            if not 0 <= m < len(self.models):
+                return [-2], op
+            model = self.models[m]
+            before = self.view()
+            if how.startswith("pickle") and how[6:].isdigit():
+                r = pickle.loads(pickle.dumps(model, protocol=int(how[6:])))
+            elif how == "pickle_default":
+                r = pickle.loads(pickle.dumps(model))
+            elif how == "deepcopy":
+                r = copy.deepcopy(model)
+            elif len(model.agents) == 0:
+                return [0], op
+            elif how == "pickle_agent":
+                r = pickle.loads(pickle.dumps(model.agents[0])).model
+            elif how == "copy_agent":
+                r = copy.deepcopy(model.agents[0]).model
+            else:
+                r = next(iter(pickle.loads(pickle.dumps(model.agents)))).model
+            what = f"model {m} restored through {how}"
+            sig = lambda mm: ([(a.unique_id, type(a)) for a in mm.agents], [a.unique_id for a in mm._agents],  # noqa: E731
+                              [(c, [a.unique_id for a in s0]) for c, s0 in mm.agents_by_type.items()], list(mm.agent_types))
+            ok = (r is not model and sig(r) == sig(model) and all(a.model is r for a in r.agents)
+                  and not ({id(a) for a in r.agents} & {id(a) for a in model.agents})
+                  and all(type(a) is c for c, s0 in r.agents_by_type.items() for a in s0)
+                  and {id(a) for a in r._agents} == {id(a) for a in r.agents} | {id(a) for c, s0 in r.agents_by_type.items() for a in s0})
+            if not ok:
+                self.fail("C02/Model.copy/registry-not-exact",
+                          f"{what}: the copy's views {sig(r)} must mirror the original's {sig(model)} with its own agent objects")
+            # the copy goes on as a model of its own: a new agent continues ITS id sequence, a removal leaves every view at once
+            n_ever = self.s_count[m]
+            a = self.classes[0](r, 1)
+            if (CHECK_IDS_AFTER_COPY or hasattr(r, "_last_agent_id")) and a.unique_id != n_ever + 1:
+                self.fail("C02/Agent.unique_id/restarts-after-copy-or-pickle",
+                          f"{what}: {n_ever} agents were ever created for the model (ids 1..{n_ever}); the next agent created for "
+                          f"the copy got unique_id {a.unique_id} instead of {n_ever + 1} (ids in the copy: {[x.unique_id for x in r.agents]})")
+            a.remove()
+            victims = [v for v in r.agents if self.cidx.get(type(v), 99) in PLAIN][:2]
+            for v in victims:
+                v.remove()
+            left = {id(x) for x in r.agents}
+            if (id(a) in left or any(id(v) in left for v in victims) or {id(x) for x in r._agents} != left
+                    or any(v in s0 for v in victims for s0 in r.agents_by_type.values())):
+                self.fail("C02/Model.copy/registry-not-exact", f"{what}: after removing agents from the copy its views disagree")
+            if self.view() != before:
+                self.fail("C02/Model.copy/original-changed", f"{what}: copying, or creating/removing agents in the copy, changed the original")
+            self.check("copy / pickle round trip")
+            return [0], op
         if kind == "create_raise":
             _, m, c = op
             if not 0 <= m < len(self.models):
@@ -1041,7 +1127,7 @@ def _op(op):
         shuf = f"(Some {L.zlist(called)})" if akind == "shuffle_do" else "None"
         sc = L.lst([L.pair(L.z(e[0]), _act(e[1])) for e in script])
         return f"Activate {L.z(m)} {cc} {shuf} {sc}"
-    if k in ("create_x", "create_many_x", "create_raise"):
+    if k in ("create_x", "create_many_x", "create_raise", "clone_model"):
         return "Remove (-1)"      # oracle-only operations: the Z-valued model has no counterpart (never compared)
     raise ValueError(op)
 
@@ -1097,8 +1183,9 @@ LEVEL_TEXT = ("27 machine-checked Coq theorems (+ 6 examples) over a Gallina tra
               "supplies the failing input.")
 LEVEL_NOTE = ("Theorems are about the model. Not modelled: weak-reference death (harness keeps agents alive), remove() overrides beyond "
               "the four shapes or touching another model, user calls of register_agent; argument distribution of create_agents is in "
-              "the model and the correspondence but not an oracle clause (the statement does not speak about it). No defect of the "
-              "unchanged tree in this area; observations: agents_by_type keeps empty sets for extinct classes (proved), create_agents "
+              "the model and the correspondence but not an oracle clause (the statement does not speak about it). One defect found: a copied / unpickled "
+              "model restarts its unique_id sequence at 1 (key C02/Agent.unique_id/restarts-after-copy-or-pickle, repair in "
+              "fixes/C02-1-*.diff; the clause is evaluated when the repair is in the tree or VERIF_C02_COPY_IDS=1); observations: agents_by_type keeps empty sets for extinct classes (proved), create_agents "
               "refuses a 0-d ndarray with TypeError before constructing anything, deregister_agent on an agent discarded from "
               "model.agents raises KeyError after updating two structures (user-inflicted). Trusted: Coq kernel, the T1 extractor, the "
               "driver/observer, CPython dict/WeakKeyDictionary ordering as modelled. No axioms.")
